@@ -27,7 +27,7 @@ DEADLINE = {"quick": 200, "thorough": 3000}
 
 
 def n_cases(tier):
-    return 220 if tier == "quick" else 1200
+    return 220 if tier == "quick" else 800
 
 
 def gen(rng):
